@@ -1,5 +1,6 @@
 import J5V.Compile.ConvertProofs
 import J5V.Compile.ShapeProofs
+import J5V.Compile.RefProofs
 import J5V.Generated.CompileconstsFacts
 /-!
 # C02 — j5s compiles to exactly the protobuf contract the source declares
@@ -34,6 +35,14 @@ theorem C02_field_numbering (c : Ctx) (np : List Str) (isOneof : Bool) (virt : L
   have := hn i hi (by simpa [m, declMsg, mkMsg, MsgSkel.fields] using hf)
   simp only [m, declMsg, mkMsg, MsgSkel.fields]
   refine ⟨by rw [this.1]; omega, this.2.1, this.2.2⟩
+
+/-- the same as one list equation: names and numbers of all fields of a declaration's message -/
+theorem C02_field_list (c : Ctx) (np : List Str) (isOneof : Bool) (virt : List Property)
+    (o : ObjDecl) (h : (convDecl c np isOneof virt o).errs = 0) :
+    declMsgOf c np isOneof virt o ∈ (convDecl c np isOneof virt o).msgs ∧
+    (declMsgOf c np isOneof virt o).fields.map (fun f => (f.name, f.number)) =
+      (virt ++ o.props).zipIdx.map fun (p, i) => (toSnake p.name, i + 1) :=
+  ⟨convDecl_msgOf c np isOneof virt o, declMsgOf_fields c np isOneof virt o h⟩
 
 /-- **Position numbering at the source** (`mapProperties`): numbers are 1 … n over the virtual
 prepends followed by the declared properties, in order. -/
@@ -107,6 +116,77 @@ theorem C02_path_param (c : Ctx) (np : List Str) (n : Nat) (req : List Property)
 theorem C02_path_rewrite (req : List Property) (resolved : Str) :
     (rewritePath req resolved).1 =
       joinWith b!"/" ((splitOnByte 47 resolved).map rewritePart) := rfl
+
+/-- **Imports.** `j5Imports` succeeds exactly when no import has an empty path and none is a
+bare single-segment package without alias; the map holds the entries of every import, in order:
+a package import `a.b.v1` is reachable as `b` (last-but-one segment) and as `a.b.v1`; an aliased
+import only under its alias; a file import `a/b/v1/x.proto` under the package of its directory. -/
+theorem C02_imports (pkg : Str) (imports : List Import) (h : ∀ imp ∈ imports, imp.path ≠ [])
+    (hb : ∀ imp ∈ imports, importBad imp = false) :
+    j5Imports pkg imports = .ok ⟨imports.flatMap importEntries, pkg⟩ ∧
+    (∀ path, containsByte 47 path = false → 2 ≤ (splitOnByte 46 path).length →
+      importEntries ⟨path, []⟩ =
+        [((splitOnByte 46 path).getD ((splitOnByte 46 path).length - 2) [], path), (path, path)]) ∧
+    (∀ path alias, containsByte 47 path = false → alias ≠ [] →
+      importEntries ⟨path, alias⟩ = [(alias, path)]) ∧
+    (∀ path alias, containsByte 47 path = true →
+      importEntries ⟨path, alias⟩ = [(packageFromFilename path, packageFromFilename path)]) :=
+  ⟨j5Imports_ok pkg imports h hb, importEntries_package, importEntries_alias, importEntries_file⟩
+
+/-- **References resolve to the declared type.** Local references (no package, or the file's own
+package) are looked up in the package's export table; references through an import key are looked
+up in the export table of the package the key maps to. -/
+theorem C02_refs_resolve (im : ImportMap) (r : Resolver) (hp : im.thisPackage = r.pkgName) :
+    (∀ pkg schema, pkg = [] ∨ pkg = im.thisPackage →
+      resolveTypeNoImport im r pkg schema = mapGet r.exports schema) ∧
+    (∀ spec full schema, spec ≠ [] ∧ spec ≠ im.thisPackage → mapGet im.vals spec = some full →
+      implicitRef spec schema = none → implicitRef full schema = none → full ≠ r.pkgName →
+      resolveTypeNoImport im r spec schema =
+        match mapGet r.deps full with
+        | none => none
+        | some ex => mapGet ex schema) :=
+  ⟨fun pkg schema h => resolve_local im r pkg schema h hp,
+   fun spec full schema h1 h2 h3 h4 h5 => resolve_imported im r spec full schema h1 h2 h3 h4 h5⟩
+
+/-- …and a resolved reference gives the field the absolute name `.package.Name` of the declared
+type and adds the file that declares it to the imports of the current file. -/
+theorem C02_ref_adds_import (c : Ctx) (np : List Str) (d pkg schema : Str) (fl : Bool)
+    (rules : Rules) (t : TypeRef) (h : c.resolve pkg schema = some t)
+    (hm : t.kind.isMessage = true) (hpk : t.pkg ≠ []) :
+    (∃ r, (bField c np d (.objectRef pkg schema fl rules)).res = some r ∧
+      r.typeName = b!"." ++ t.pkg ++ b!"." ++ t.name ∧ r.type = .message) ∧
+    t.file ∈ (bField c np d (.objectRef pkg schema fl rules)).eff.imports := by
+  have := bField_objectRef_resolved c np d pkg schema fl rules t h hm
+  rw [protoTypeName_abs t hpk] at this
+  exact this
+
+/-- **Exactness, per declaration.** A declared object yields exactly one message at its level (its
+map entries live inside it) and no enum; a declared oneof yields its message preceded only by map
+entries; a declared enum yields exactly one enum and no message; the message has exactly one field
+per property (`C02_field_numbering`) — nothing else is emitted. -/
+theorem C02_exactness (c : Ctx) (np : List Str) (virt : List Property) (name : Str)
+    (props : List Property) (nested : List Nested) (psm : Option Psm) (e : EnumDecl) :
+    (convDecl c np false virt (.mk name props nested psm)).msgs =
+      [declMsg c np false virt name props nested psm] ∧
+    (convDecl c np false virt (.mk name props nested psm)).enums = [] ∧
+    (∃ entries, (convDecl c np true virt (.mk name props nested psm)).msgs =
+        entries ++ [declMsg c np true virt name props nested psm] ∧
+      ∀ m ∈ entries, m.kind = .mapentry) ∧
+    (convDecl c np true virt (.mk name props nested psm)).enums = [] ∧
+    convItem c (.enum e) = [{ target := .main, eff := { enums := [convEnum e] } }] := by
+  refine ⟨?_, ?_, ⟨_, convDecl_msgs c np true virt name props nested psm, ?_⟩, ?_, rfl⟩
+  · rw [convDecl_msgs, bProps_entries_object]; rfl
+  · rw [convDecl]
+  · exact bProps_entries_kind c (np ++ [name]) true 1 (virt ++ props)
+  · rw [convDecl]
+
+/-- **Exactness, services and topics.** A service yields exactly one service with exactly one rpc
+per method (`C02_service_shape`); a topic node yields exactly one service with one rpc per message
+(`C02_topic_shape`), after one message object per message. -/
+theorem C02_exactness_steps (c : Ctx) (t : TopicNode) (ss : List Service) :
+    (acceptTopic c t).length = t.msgs.length + 1 ∧
+    (convServiceFile c ss).length = ss.length + 1 := by
+  simp [acceptTopic, convServiceFile]
 
 /-- **Service shape.** A service `N` whose methods all have a request and a supported verb is
 emitted into the `.service` sub-package as service `NService`; each method `M` becomes an rpc with
@@ -202,12 +282,36 @@ example :
 example : (rewritePath [.mk b!"fooId" true false (.string [] false)] b!"/foo/v1/:fooId/x").1 =
     b!"/foo/v1/{foo_id}/x" := by decide
 
+/-- `import bar.baz.v1` makes `baz.Thing` and `bar.baz.v1.Thing` resolvable -/
+example : importEntries ⟨b!"bar.baz.v1", []⟩ = [(b!"baz", b!"bar.baz.v1"), (b!"bar.baz.v1", b!"bar.baz.v1")] := by
+  decide
+
 example : subPackageFileName b!"foo/v1/a.j5s.proto" b!"service" = b!"foo/v1/service/a.p.j5s.proto" := by
   decide
 
 def exMethod : Method :=
   { name := b!"GetFoo", verb := .get, path := b!":fooId/x",
     request := some [.mk b!"fooId" true false (.string [] false)], response := none }
+
+/-- hypotheses of `C02_service_shape` / `C02_topic_shape` / `C02_ref_adds_import` are met by
+ordinary declarations -/
+def exService : Service := { name := some b!"Foo", basePath := some b!"/foo/v1", methods := [exMethod] }
+
+example : exService.name = some b!"Foo" ∧ (∀ m ∈ exService.methods, m.request.isSome = true) ∧
+    (∀ m ∈ exService.methods, m.verb ≠ .unspecified) := by decide
+
+def exTopicNode : TopicNode :=
+  { name := b!"Blob", msgs := [{ name := some b!"Ping", props := [] }, { name := some b!"Pong", props := [] }],
+    topicName := b!"blob", role := .publish }
+
+example : ∀ m ∈ exTopicNode.msgs, (topicMethodName exTopicNode m).isSome = true := by decide
+
+def exResolver : Resolver :=
+  { pkgName := b!"foo.v1", exports := [(b!"A", ⟨b!"foo.v1", b!"A", b!"foo/v1/a.j5s.proto", .message false⟩)],
+    deps := [(b!"bar.v1", [(b!"B", ⟨b!"bar.v1", b!"B", b!"bar/v1/b.j5s.proto", .message false⟩)])] }
+
+example : resolveTypeNoImport ⟨importEntries ⟨b!"bar.v1", []⟩, b!"foo.v1"⟩ exResolver b!"bar" b!"B" =
+    some ⟨b!"bar.v1", b!"B", b!"bar/v1/b.j5s.proto", .message false⟩ := by decide
 
 example : (methodSkelOf (some b!"/foo/v1") exMethod).http =
     some { verb := .get, path := b!"/foo/v1/{foo_id}/x", body := [] } := by decide
